@@ -1,6 +1,7 @@
 """C17 — post-merge scale/offset options compose as documented; stored curves agree (real StoG)."""
 import math
 import numpy as np
+from .common import exceeds
 import impl
 from pystog import StoG
 import stogcases as sc
@@ -87,11 +88,11 @@ def evaluate(case):
     mean = np.array([math.fsum(stored[1][ks == k].tolist()) / int((ks == k).sum()) for k in kq])
     expF = cF * q * (aS * mean + bS - 1.0) + dF
     sc_ = max(1.0, float(np.abs(expF).max()))
-    if np.abs(F - expF).max() > 1e-11 * sc_:
+    if exceeds(np.abs(F - expF).max(), 1e-11 * sc_):
         fails.append(f"stored Q[S(Q)-1] differs from cF*Q*(aS*mean+bS-1)+dF by {np.abs(F - expF).max():.3g} (options {o!r})")
-    if np.abs(S - (expF / q + 1.0)).max() > 1e-11 * max(1.0, float(np.abs(S).max())):
+    if exceeds(np.abs(S - (expF / q + 1.0)).max(), 1e-11 * max(1.0, float(np.abs(S).max()))):
         fails.append("stored S(Q) differs from stored Q[S(Q)-1]/Q + 1")
-    if np.abs(F - q * (S - 1.0)).max() > 1e-11 * sc_:
+    if exceeds(np.abs(F - q * (S - 1.0)).max(), 1e-11 * sc_):
         fails.append("stored curves do not satisfy Q[S(Q)-1] = Q*(S(Q)-1)")
     return fails
 
